@@ -825,6 +825,45 @@ def jump_grid():
     return out
 
 
+def jump_pairs_grid():
+    """two different kinds of jump in ONE loop body (break + return, continue + return, break + continue, both orders,
+    flat and with the second jump nested in an if / try / inner loop): the lowering passes each attach their own flag and
+    extra loop test to the loop, and the later pass must combine its test with the one already there"""
+    out = []
+    jumps = {'break': 'break', 'continue': 'continue', 'return': 'return T(9, x)'}
+    wraps = {
+        'flat': ['{J}'],
+        'if': ['if D({a}):', '    T({b})', '    {J}'],
+        'try': ['try:', '    {J}', 'finally:', '    T({b})'],
+        'inner-for': ['for i2 in L({a}):', '    T({b}, i2)', '{J}'],
+    }
+    for loop in ('while D(1):', 'for i1 in L(1):'):
+        for j1 in sorted(jumps):
+            for j2 in sorted(jumps):
+                if j1 == j2:
+                    continue
+                for wname, tpl in sorted(wraps.items()):
+                    k = [10]
+
+                    def K():
+                        k[0] += 1
+                        return k[0]
+                    body = ['if D(%d):' % K(), '    ' + jumps[j1], 'x = T(%d, x)' % K()]
+                    second = ['if D(%d):' % K(), '    ' + jumps[j2]]
+                    a_, b_ = K(), K()
+                    for t in tpl:
+                        if '{J}' in t:
+                            ind = t[:len(t) - len(t.lstrip())]
+                            body += [ind + l for l in second]
+                        else:
+                            body.append(t.format(a=a_, b=b_))
+                    body.append('x = T(%d, x)' % K())
+                    src = ['def f(a, b, c):', '    x = T(2, a)', '    ' + loop] + ['        ' + l for l in body] + \
+                          ['    return T(%d, x)' % K()]
+                    out.append('\n'.join(src) + '\n')
+    return out
+
+
 def tiny_grid():
     """bodies that consist of a docstring, a lone constant or pass only -- at the top level, in nested functions and in
     methods of local classes; the converted function must still load, return None and keep its docstring"""
@@ -964,6 +1003,9 @@ def check(run):
     for g in tiny_grid():
         srcs.append(g)
         kinds.append(('tiny-grid', False))
+    for g in jump_pairs_grid():
+        srcs.append(g)
+        kinds.append(('jump-pairs-grid', False))
     # corpus first
     cdir = os.path.join(vlib.ROOT, 'corpus', 'C01')
     corpus = []
